@@ -374,11 +374,21 @@ def lower_ir(case):
         return op.Address(o["addr"])
 
     cmds = []
+    sty = Style(list(reversed(case["style"])))
     for ins in case["prog"]:
         if ins[0] == "label":
             cmds.append(BranchLabel(ins[1]))
         else:
-            cmds.append(ICmd(instruction=string_to_instruction(ins[0]), operands=[conv(o) for o in ins[1]]))
+            mn, ops = ins
+            nlead = 0
+            for j, o in enumerate(ops):
+                if isinstance(o, int) and not isinstance(o, bool) and j in READ_POS.get(mn, []):
+                    nlead += 1
+                else:
+                    break
+            k = (1 + sty.next(nlead)) if nlead and sty.next(3) == 0 else 0
+            # leading literals may be given as ICmd.args (what the text form `instr(a,b) ...` produces)
+            cmds.append(ICmd(instruction=string_to_instruction(mn), args=[o for o in ops[:k]], operands=[conv(o) for o in ops[k:]]))
     return ProtoSubroutine(commands=cmds, netqasm_version=(0, 0), app_id=0)
 
 
